@@ -10,7 +10,8 @@ checks, na = [], []
 for p in props:
     pid = p["id"]
     path = os.path.join(V, "vlib", "props", pid.lower() + ".py")
-    if not os.path.exists(path):
+    ready = set(open(os.path.join(V, "tools", "ready.txt")).read().split())
+    if not os.path.exists(path) or pid not in ready:
         na.append({"property_id": pid, "reason": "check not built yet in this round (planned, see DESIGN.md section 3); runtime monitoring applies"})
         continue
     mod = importlib.import_module(f"vlib.props.{pid.lower()}")
